@@ -67,3 +67,36 @@ prop("C02",
          "pymbolic's construction of expression objects",
          "that loopy code generation gives the expression the meaning of "
          "pyvc/den.py (C01 back half)"])
+
+prop("C11",
+     level="proof",
+     level_text=(
+         "Deductive proof at the IndexLambda level: for every node kind and "
+         "every expression-producing public function in scope, every affine "
+         "or quasi-affine array subscript of the produced expression lies "
+         "within the accessed array's bounds for ALL axis lengths, parameters "
+         "and iteration points, under the conjunction of the If-guards it "
+         "sits under (z3 over unbounded integers)."),
+     level_note=(
+         "Decided on the index lambdas pytato itself builds (where its index "
+         "arithmetic lives); loopy's translation of domains and subscripts "
+         "to C loops and the reduction-bound temporaries of CodeGenMapper are "
+         "trusted, not verified. Data-dependent subscripts (index arrays, CSR "
+         "row pointers) are excluded as the property states; the inner access "
+         "into the index array is checked."),
+     technique="contract-based deductive verification: symbolic execution of "
+               "the real source to per-path VCs, discharged by z3",
+     design_ref="DESIGN.md §6 C11",
+     explanation=(
+         "Same runs as C02 plus the expression builders with guards (pad, "
+         "broadcasting, where, reductions, eye, arange): the denotation walk "
+         "records every Subscript with its guard stack; one VC per access "
+         "component."),
+     structural_bound="as C02; builders: rank<=3, <=3 operands",
+     trusted_base=["loopy's code generation from IndexLambda to loops "
+                   "(domain_for_shape result is used as is)"],
+     assumptions=["iteration domain of an IndexLambda is the box of its shape "
+                  "and the half-open boxes of its reduction bounds"],
+     unverified_surroundings=[
+         "pytato.target.loopy.codegen (CodeGenMapper, InlinedExpressionGenMapper, "
+         "domain_for_shape) and loopy itself"])
